@@ -27,6 +27,7 @@ class Explorer:
         self.kind = kind
         self.piecewise = piecewise
         self.unknown = 0
+        self.unknown_as_feasible = False  # True: a branch whose feasibility the solver cannot settle is explored (over-approximation: sound for proofs; counterexamples are replayed anyway)
         self.prefix = []
         self.trace = []
         self.pc = []
@@ -65,6 +66,10 @@ class Explorer:
         else:
             rt = self._feasible(e)
             rf = self._feasible(z3.Not(e))
+            if (rt == "unknown" or rf == "unknown") and self.unknown_as_feasible:
+                self.unknown += 1
+                rt = "sat" if rt == "unknown" else rt
+                rf = "sat" if rf == "unknown" else rf
             if rt == "unknown" or rf == "unknown":
                 self.unknown += 1
                 raise RuntimeError("explorer: unknown feasibility for %s" % key[:200])
